@@ -127,6 +127,20 @@ async def _noop(ev):
     pass
 
 
+class BaseSymbolFee(fees.FeeStrategy):
+    """A fee scheme of the user's own (FeeStrategy is a public extension point): buys pay a percentage of what they receive,
+    in the BASE symbol."""
+
+    def __init__(self, pct):
+        self.pct = pct
+
+    def calculate_fees(self, order, balance_updates):
+        amount = balance_updates.get(order.pair.base_symbol, D(0))
+        if amount <= 0:
+            return {}
+        return {order.pair.base_symbol: -(amount * self.pct / D(100))}
+
+
 def sym_prec(cfg, s):
     """Precision configured for a symbol (set_symbol_precision)."""
     over = cfg.get("sym_prec") or {}
@@ -180,7 +194,10 @@ def make_exchange(cfg, dispatcher):
             ls.set_conditions(sym, cond(sym if isym == "same" else isym, req))
         kw["lending_strategy"] = ls
     fee = cfg.get("fee")
-    fee_strategy = fees.NoFee() if fee is None else fees.Percentage(D(str(fee[0])), D(str(fee[1])))
+    if fee is not None and fee[0] == "base":
+        fee_strategy = BaseSymbolFee(D(str(fee[1])))
+    else:
+        fee_strategy = fees.NoFee() if fee is None else fees.Percentage(D(str(fee[0])), D(str(fee[1])))
     liq = cfg.get("liq")
     if liq is None:
         liq_factory = liquidity.InfiniteLiquidity
@@ -490,6 +507,8 @@ def alphabet(cfg, level="std"):
         return alphabet_reidx(cfg)
     if level == "ar4":
         return alphabet_ar4(cfg)
+    if level == "cross2":
+        return alphabet_cross2(cfg)
     shapes = {"small": (0, 1, 5), "std": (0, 1, 2, 3, 4, 5, 6, 9), "full": tuple(range(len(SHAPES)))}[level]
     A = [("bar", pi, si) for pi in range(npairs) for si in shapes]
     amts = {"small": (1, 3), "std": (1, 3), "full": (1, 2, 3)}[level]
@@ -640,4 +659,19 @@ def alphabet_ar4(cfg):
         A.append(("ord", "stp", side, 0, str(u), None, "100", False, True))
         A.append(("ord", "sl", side, 0, str(u), "90" if side == "S" else "110", "100", False, True))
     A += [("cancel", 0), ("repay", 0)]
+    return A
+
+
+def alphabet_cross2(cfg):
+    """Three pairs with DIFFERENT precisions and different quote symbols, no lending: orders on BTC/USD and on the cross pair
+    ETH/BTC accepted one after the other (whatever was looked up for one pair must not be used for the other)."""
+    assert cfg.get("pairs", 1) == 3
+    u = unit(cfg)
+    A = [("bar", 0, 0), ("bar", 2, 0), ("bar", 1, 0)]
+    for pi in (0, 2):
+        A.append(("ord", "lim", "B", pi, str(u), "100", None, False, False))
+        A.append(("ord", "lim", "B", pi, str(3 * u), "90", None, False, False))
+        A.append(("ord", "mkt", "B", pi, str(u), None, None, False, False))
+        A.append(("ord", "lim", "S", pi, str(u), "100", None, False, False))
+    A.append(("cancel", 0))
     return A
